@@ -604,6 +604,10 @@ func (b *builder) addFixed() {
 				{Name: "Each", Params: []Param{{"fn", &T{Kind: KFunc, Params: []*T{k, e}, Results: []*T{bl}}}}}}})
 	}
 	for _, d := range t.Deps {
+		if d.ExtraFiles != nil {
+			t.Ifaces = append(t.Ifaces, &Iface{Name: "FxDriver", File: file, Exportable: true, Tags: []string{"fixed"},
+				Embeds: []*T{pkgT(d, "Conn")}, Methods: []Method{{Name: "Name", Results: []Param{{"", str}}}}})
+		}
 		if d.AltAlias != "" {
 			mk("FxTwoNamesA", Method{Name: "Use", Params: []Param{{"g", pkgT(d, d.Struct)}}, Results: []Param{{"", er}}})
 			t.Ifaces = append(t.Ifaces, &Iface{Name: "FxTwoNamesB", File: 1, Exportable: true, Tags: []string{"fixed"},
